@@ -115,4 +115,94 @@ def effective (k : Ctor) (opts : List OptInst) : List OptInst :=
   | .netconf => opts ++ [netconfConnectionOpt]
   | _ => opts
 
+
+/-! ## the expected rows of the regenerated tables (what every option is documented to do) -/
+
+/-- For every option: the field(s) it assigns, replacing or appending, and where the value comes
+from. `.param i` = the caller's i-th argument VERBATIM (only a Go type conversion such as
+`[]byte(s)` in between); `.const` for the flag options; `.derived 0` for the three documented
+normalisations (ssh config / known-hosts paths are resolved to an existing file, the log level is
+lower-cased); `.fresh` for the values created inside (default logger, system default files). -/
+def expectedRows : List (Opt × List Write) := [
+  (.WithAuthBypass, [⟨.channel_Channel_AuthBypass, .set, .const [116,114,117,101]⟩]),
+  (.WithAuthNoStrictKey, [⟨.transport_SSHArgs_StrictKey, .set, .const [102,97,108,115,101]⟩]),
+  (.WithAuthPassphrase, [⟨.transport_SSHArgs_PrivateKeyPassPhrase, .set, .param 0⟩]),
+  (.WithAuthPassword, [⟨.transport_Args_Password, .set, .param 0⟩]),
+  (.WithAuthPrivateKey, [⟨.transport_SSHArgs_PrivateKeyPath, .set, .param 0⟩, ⟨.transport_SSHArgs_PrivateKeyPassPhrase, .set, .param 1⟩]),
+  (.WithAuthSecondary, [⟨.network_Driver_AuthSecondary, .set, .param 0⟩]),
+  (.WithAuthUsername, [⟨.transport_Args_User, .set, .param 0⟩]),
+  (.WithChannelLog, [⟨.channel_Channel_ChannelLog, .set, .param 0⟩]),
+  (.WithCustomTransport, [⟨.transport_Args_UserImplementation, .set, .param 0⟩]),
+  (.WithDefaultDesiredPriv, [⟨.network_Driver_DefaultDesiredPriv, .set, .param 0⟩]),
+  (.WithDefaultLogger, [⟨.generic_Driver_Logger, .set, .fresh⟩]),
+  (.WithFailedWhenContains, [⟨.generic_Driver_FailedWhenContains, .set, .param 0⟩]),
+  (.WithFileTransportFile, [⟨.transport_File_F, .set, .param 0⟩]),
+  (.WithLogger, [⟨.generic_Driver_Logger, .set, .param 0⟩]),
+  (.WithNetconfExcludeHeader, [⟨.netconf_Driver_ExcludeHeader, .set, .const [116,114,117,101]⟩]),
+  (.WithNetconfForceSelfClosingTags, [⟨.netconf_Driver_ForceSelfClosingTags, .set, .const [116,114,117,101]⟩]),
+  (.WithNetconfPreferredVersion, [⟨.netconf_Driver_PreferredVersion, .set, .param 0⟩]),
+  (.WithNetworkOnClose, [⟨.network_Driver_OnClose, .set, .param 0⟩]),
+  (.WithNetworkOnOpen, [⟨.network_Driver_OnOpen, .set, .param 0⟩]),
+  (.WithOnClose, [⟨.generic_Driver_OnClose, .set, .param 0⟩]),
+  (.WithOnOpen, [⟨.generic_Driver_OnOpen, .set, .param 0⟩]),
+  (.WithPassphrasePattern, [⟨.channel_Channel_PassphrasePattern, .set, .param 0⟩]),
+  (.WithPasswordPattern, [⟨.channel_Channel_PasswordPattern, .set, .param 0⟩]),
+  (.WithPort, [⟨.transport_Args_Port, .set, .param 0⟩]),
+  (.WithPrivilegeLevels, [⟨.network_Driver_PrivilegeLevels, .set, .param 0⟩]),
+  (.WithPromptPattern, [⟨.channel_Channel_PromptPattern, .set, .param 0⟩]),
+  (.WithPromptSearchDepth, [⟨.channel_Channel_PromptSearchDepth, .set, .param 0⟩]),
+  (.WithReadDelay, [⟨.channel_Channel_ReadDelay, .set, .param 0⟩]),
+  (.WithReturnChar, [⟨.channel_Channel_ReturnChar, .set, .param 0⟩]),
+  (.WithSSHConfigFile, [⟨.transport_SSHArgs_ConfigFile, .set, .derived 0⟩]),
+  (.WithSSHConfigFileSystem, [⟨.transport_SSHArgs_ConfigFile, .set, .fresh⟩]),
+  (.WithSSHKnownHostsFile, [⟨.transport_SSHArgs_KnownHostsFile, .set, .derived 0⟩]),
+  (.WithSSHKnownHostsFileSystem, [⟨.transport_SSHArgs_KnownHostsFile, .set, .fresh⟩]),
+  (.WithStandardTransportExtraCiphers, [⟨.transport_Standard_ExtraCiphers, .set, .param 0⟩]),
+  (.WithStandardTransportExtraKexs, [⟨.transport_Standard_ExtraKexs, .set, .param 0⟩]),
+  (.WithSystemTransportOpenArgs, [⟨.transport_System_ExtraArgs, .append, .param 0⟩]),
+  (.WithSystemTransportOpenArgsOverride, [⟨.transport_System_OpenArgs, .set, .param 0⟩]),
+  (.WithSystemTransportOpenBin, [⟨.transport_System_OpenBin, .set, .param 0⟩]),
+  (.WithTermHeight, [⟨.transport_Args_TermHeight, .set, .param 0⟩]),
+  (.WithTermWidth, [⟨.transport_Args_TermWidth, .set, .param 0⟩]),
+  (.WithTimeoutOps, [⟨.channel_Channel_TimeoutOps, .set, .param 0⟩]),
+  (.WithTimeoutSocket, [⟨.transport_Args_TimeoutSocket, .set, .param 0⟩]),
+  (.WithTransportReadSize, [⟨.transport_Args_ReadSize, .set, .param 0⟩]),
+  (.WithTransportType, [⟨.generic_Driver_TransportType, .set, .param 0⟩]),
+  (.WithUsernamePattern, [⟨.channel_Channel_UsernamePattern, .set, .param 0⟩]),
+  (.logging_WithFormatter, [⟨.logging_Instance_Formatter, .set, .param 0⟩]),
+  (.logging_WithLevel, [⟨.logging_Instance_Level, .set, .derived 0⟩]),
+  (.logging_WithLogger, [⟨.logging_Instance_Loggers, .append, .param 0⟩]),
+  (.withNetconfConnection, [⟨.transport_SSHArgs_NetconfConnection, .set, .param 0⟩])]
+
+open Scrapli.Gen.PlatformOptions in
+/-- For every platform option name: the option function it builds, the documented value type and
+the ONLY conversion that may be applied to the YAML value on its way to the option. -/
+def expectedPlatformRows : List (String × Opt × String × Conv) := [
+  ("port", .WithPort, "an int", .direct),
+  ("auth-bypass", .WithAuthBypass, "", .none),
+  ("auth-strict-key", .WithAuthNoStrictKey, "", .none),
+  ("prompt-pattern", .WithPromptPattern, "a string", .regexp),
+  ("username-pattern", .WithUsernamePattern, "a string", .regexp),
+  ("password-pattern", .WithPasswordPattern, "a string", .regexp),
+  ("passphrase-pattern", .WithPassphrasePattern, "a string", .regexp),
+  ("return-char", .WithReturnChar, "a string", .direct),
+  ("read-delay", .WithReadDelay, "a float", .seconds),
+  ("timeout-ops", .WithTimeoutOps, "a float", .seconds),
+  ("transport-type", .WithTransportType, "a string", .direct),
+  ("read-size", .WithTransportReadSize, "an int", .direct),
+  ("transport-pty-height", .WithTermHeight, "an int", .direct),
+  ("transport-pty-width", .WithTermWidth, "an int", .direct),
+  ("transport-system-open-args", .WithSystemTransportOpenArgs, "an array of strings", .direct)]
+
+/-- options whose regenerated row differs from the expected one (the correspondence directs its
+search at these) -/
+def changedOptionRows : List Opt :=
+  (expectedRows.filter fun p => (spec p.1).writes != p.2).map (·.1)
+
+open Scrapli.Gen.PlatformOptions in
+/-- platform option names whose regenerated row differs from the expected one, or is missing -/
+def changedPlatformRows : List String :=
+  (expectedPlatformRows.filter fun p =>
+    !(entries.any fun e => e.nameS == p.1 && e.opt == some p.2.1 && e.documented == p.2.2.1 && e.conv == p.2.2.2)).map (·.1)
+
 end Scrapli.Options
